@@ -1,5 +1,6 @@
 #!/bin/bash
 # tools/mut.sh <PROP> <file> <sed-expression>  : apply a one-line mutation to /repo, run the check, undo
+export TSG_SCRATCH_EVIDENCE=1   # the tree is changed on purpose: evidence of these runs goes to .work/evidence-dev
 cd /repo || exit 2
 [ -n "$(git status --porcelain --untracked-files=no)" ] && { echo "/repo not clean"; exit 2; }
 sed -i "$3" "$2"
